@@ -4,6 +4,7 @@
 package c08
 
 import (
+	"context"
 	"encoding/base64"
 	"encoding/json"
 	"fmt"
@@ -32,8 +33,8 @@ func init() {
 		Level: "exploration",
 		Rule: "generated Swagger 2.0 APIs (1-4 operations; produces lists of 1-4 types over the 10-type vocabulary of C07 (with type-prefix siblings such as text / texture / textile), entries with and without parameters such as '; charset=utf-8', op-level or global; API default type " +
 			"application/json / another type / none; the default listed in produces or not; one declared 2xx code of {200,201,202,204} - or, for a quarter of the operations, several of them (200+204, 200+201+202, ...) - plus non-2xx/default responses, or default-only; methods GET POST PUT DELETE PATCH HEAD; " +
-			"basic-auth operations with realm set/unset, optionally an API authorizer that denies chosen requests (errors.Error 403 or a plain error); operations with a required query parameter that a request may omit) served by the real RoutesHandler over an untyped.API whose every producer is tagged and whose registrations pass api.Validate(); " +
-			"requests = Accept headers from C07's grammar generator x handler outcomes {value, nil, custom Responder, middleware.Error(code<=0|4xx|5xx, data, headers), NotImplemented, errors.Error, plain error, composite error} " +
+			"basic-auth operations with realm set/unset, optionally an API authorizer that denies chosen requests (errors.Error 403 or a plain error); operations with a required query parameter that a request may omit; half of the POST/PUT/PATCH operations take a JSON body: requests with an admitted body, a non-admitted type (415) or an unparsable Content-Type (400); the basic scheme registered through BasicAuth/BasicAuthRealm or their Ctx flavours, the credential callback refusing with a go-openapi 401, another errors.Error (403, 429) or a plain error; one API in six registers producers under bare media types only and skips api.Validate()) served by the real RoutesHandler over an untyped.API whose every producer is tagged and whose registrations pass api.Validate(); " +
+			"requests = Accept headers from C07's grammar generator x handler outcomes {value, nil, custom Responder, a Responder that also implements error (returned as the result), middleware.Error(code<=0|4xx|5xx, data, headers), NotImplemented, errors.Error, plain error, composite error} " +
 			"x credentials {none, wrong, malformed, right} x unknown path / wrong method. Oracle from the statement; the offers are computed from the DECLARED produces (operation, else spec) plus the API default, the observed MatchedRoute.Produces must be that set and only lends its order. " +
 			"non-trivial = request that reached the stage it was meant for; distinct by (entry shape of the negotiated type, Accept flavour, outcome kind, method, declared code, stage)",
 		Assumptions: []string{
@@ -41,7 +42,7 @@ func init() {
 			"'the producer registered for that media type (parameters ignored)' = the producer registered under the announced type with its parameters stripped; every registration is tagged and api.Validate() passes (a catalogue operation lists every registered key)",
 			"operations with only a 'default' response (no declared success status) are judged for absence of panics only",
 			"a Responder result (custom or the library's own) on HEAD or for a 204 operation writes what it wants: body not judged there",
-			"404/405 answers: only 'the error responder is invoked once with an error of that code and a Content-Type is set' is judged (the offers are a map-ordered list that cannot be observed)",
+			"404/405 answers: 'the error responder is invoked once with an error of that code and a Content-Type is set, which is a produces entry of the API, its default type or JSON' is judged (the offers are a map-ordered list that cannot be observed)",
 			"basic auth: the authenticate callback reports bad credentials with an error; realm unset or \"\" means the library default security.DefaultRealmName; the challenge is parsed as RFC 7235 (scheme Basic, realm as quoted-string or token)",
 			"upper-case entries in produces are not generated",
 			"an operation that declares several 2xx codes: its declared success status is the lowest of them (the rule spec.Operation.SuccessResponse documents), for every response alike",
@@ -63,6 +64,12 @@ type APIDesc struct {
 	Realm           *string  `json:"realm,omitempty"`            // nil: security.BasicAuth (library default realm)
 	NoOpIDs         bool     `json:"no_operation_ids,omitempty"` // the operations declare no operationId
 	Authorizer      bool     `json:"authorizer,omitempty"`       // an API-wide authorizer is registered (it denies the requests that say so)
+	// CtxAuth: the basic scheme is registered through security.BasicAuthCtx / BasicAuthRealmCtx (the credential
+	// callback hands a context back)
+	CtxAuth bool `json:"basic_auth_ctx,omitempty"`
+	// BareOnly: producers are registered under the bare media types only (no key with parameters) and
+	// api.Validate() is not called (it demands a registration under every spelling the spec uses)
+	BareOnly bool `json:"bare_keys_only,omitempty"`
 }
 
 // OpDesc is one operation at /op<i>.
@@ -74,6 +81,8 @@ type OpDesc struct {
 	Secured  bool     `json:"secured,omitempty"`
 	Alt      bool     `json:"alt_key_after_basic,omitempty"`  // secured by [{basic},{key}]: basic is not the last alternative
 	ReqParam bool     `json:"required_query_param,omitempty"` // declares the required query parameter "need"
+	// BodyParam: declares an optional body parameter and consumes application/json (POST, PUT, PATCH operations)
+	BodyParam bool `json:"body_param,omitempty"`
 }
 
 // twoXX lists the declared 2xx codes in ascending order.
@@ -110,6 +119,15 @@ type ReqDesc struct {
 	OmitParam bool `json:"omit_required_param,omitempty"`
 	// Deny: the API authorizer (if registered, and reached) refuses this request: "api-error" with an errors.Error 403, "plain-error" with a plain error
 	Deny string `json:"authorizer_denies,omitempty"`
+	// Refuse: what the basic-auth credential callback refuses wrong credentials with: "" errors.Unauthenticated (a
+	// go-openapi 401), "plain" a plain Go error, "wrapped-401" a plain error wrapping a 401, "403" / "429" errors.Error of that code
+	// Body: the request carries a body (operations with a body parameter): "admitted" application/json,
+	// "non-admitted" text/csv (415 is due), "malformed" an unparsable Content-Type (400 is due)
+	Body   string `json:"body,omitempty"`
+	Refuse string `json:"callback_refuses_with,omitempty"`
+	// AuthCtx: which context the Ctx flavour of the credential callback hands back: "" one derived from the
+	// request's with WithValue, "background" context.Background() (refusals only)
+	AuthCtx string `json:"callback_context,omitempty"`
 }
 
 // Case is one replayable case.
@@ -151,7 +169,9 @@ func (o *OpDesc) success() (int, bool) {
 func (d *APIDesc) regKeys() []string {
 	set := map[string]bool{}
 	add := func(t string) {
-		set[t] = true
+		if !d.BareOnly {
+			set[t] = true
+		}
 		set[accept.NormOffer(t)] = true
 	}
 	for _, t := range d.Global {
@@ -176,6 +196,15 @@ func (d *APIDesc) regKeys() []string {
 func (d *APIDesc) anySecured() bool {
 	for _, op := range d.Ops {
 		if op.Secured {
+			return true
+		}
+	}
+	return false
+}
+
+func (d *APIDesc) anyBody() bool {
+	for _, op := range d.Ops {
+		if op.BodyParam {
 			return true
 		}
 	}
@@ -208,8 +237,16 @@ func (d *APIDesc) swagger() []byte {
 		if len(op.Produces) > 0 {
 			o["produces"] = op.Produces
 		}
+		var params []interface{}
 		if op.ReqParam {
-			o["parameters"] = []interface{}{map[string]interface{}{"name": "need", "in": "query", "required": true, "type": "string"}}
+			params = append(params, map[string]interface{}{"name": "need", "in": "query", "required": true, "type": "string"})
+		}
+		if op.BodyParam {
+			params = append(params, map[string]interface{}{"name": "body", "in": "body", "schema": map[string]interface{}{"type": "object"}})
+			o["consumes"] = []string{"application/json"}
+		}
+		if len(params) > 0 {
+			o["parameters"] = params
 		}
 		if op.Secured {
 			o["security"] = []interface{}{map[string]interface{}{"basic": []string{}}}
@@ -283,6 +320,7 @@ type observation struct {
 	authCalls   int
 	authzCalls  int
 	denyErr     error // the error the authorizer returned
+	refuseErr   error // the error the credential callback refused the credentials with
 	bindErr     error // the error the generated-flow binder returned
 }
 
@@ -328,6 +366,14 @@ func (c *customResponder) WriteResponse(rw http.ResponseWriter, p runtime.Produc
 	}
 }
 
+// errResponder is a result that knows how to write itself AND is usable as a Go error (a typed "problem"
+// response): returned in the result slot it is a result like any other Responder.
+type errResponder struct{ customResponder }
+
+func (e *errResponder) Error() string { return "a responder that is also an error" }
+
+type ctxMark struct{}
+
 const goodUser, goodPass = "u", "p"
 
 func build(d *APIDesc) (*built, error) {
@@ -341,7 +387,10 @@ func build(d *APIDesc) (*built, error) {
 	api := untyped.NewAPI(doc).WithoutJSONDefaults()
 	api.DefaultProduces = d.DefaultProduces
 	for _, k := range d.regKeys() {
-		api.RegisterProducer(k, &tagProducer{tag: accept.NormOffer(k), b: b})
+		api.RegisterProducer(k, &tagProducer{tag: k, b: b}) // tagged with the very key: the bare key and a key with parameters are told apart
+	}
+	if d.anyBody() {
+		api.RegisterConsumer("application/json", runtime.JSONConsumer())
 	}
 	if d.anySecured() {
 		authn := func(u, p string) (interface{}, error) {
@@ -349,11 +398,37 @@ func build(d *APIDesc) (*built, error) {
 			if u == goodUser && p == goodPass {
 				return "principal:" + u, nil
 			}
-			return nil, errors.Unauthenticated("basic")
+			var err error = errors.Unauthenticated("basic")
+			if b.cur != nil {
+				switch b.cur.Refuse {
+				case "plain":
+					err = fmt.Errorf("unknown user (plain error)")
+				case "wrapped-401":
+					err = fmt.Errorf("credential store: %w", errors.Unauthenticated("basic"))
+				case "403":
+					err = errors.New(http.StatusForbidden, "account is locked")
+				case "429":
+					err = errors.New(http.StatusTooManyRequests, "too many attempts")
+				}
+			}
+			b.obs.refuseErr = err
+			return nil, err
 		}
-		if d.Realm == nil {
+		authnCtx := func(ctx context.Context, u, p string) (context.Context, interface{}, error) {
+			pr, err := authn(u, p)
+			if err != nil && b.cur != nil && b.cur.AuthCtx == "background" {
+				return context.Background(), pr, err
+			}
+			return context.WithValue(ctx, ctxMark{}, "seen-by-the-callback"), pr, err
+		}
+		switch {
+		case d.Realm == nil && d.CtxAuth:
+			api.RegisterAuth("basic", security.BasicAuthCtx(authnCtx))
+		case d.Realm == nil:
 			api.RegisterAuth("basic", security.BasicAuth(authn))
-		} else {
+		case d.CtxAuth:
+			api.RegisterAuth("basic", security.BasicAuthRealmCtx(*d.Realm, authnCtx))
+		default:
 			api.RegisterAuth("basic", security.BasicAuthRealm(*d.Realm, authn))
 		}
 	}
@@ -386,8 +461,10 @@ func build(d *APIDesc) (*built, error) {
 		b.obs.serveErr = append(b.obs.serveErr, errCall{err, rw.Header().Get("Content-Type")})
 		errors.ServeError(rw, r, err)
 	}
-	if err := api.Validate(); err != nil {
-		return nil, fmt.Errorf("validate: %w", err)
+	if !d.BareOnly {
+		if err := api.Validate(); err != nil {
+			return nil, fmt.Errorf("validate: %w", err)
+		}
 	}
 	b.api = api
 	return b, nil
@@ -406,6 +483,8 @@ func (b *built) handle() (interface{}, error) {
 	case "nil":
 	case "responder":
 		res = &customResponder{b: b, code: o.Code, data: &payload{Token: o.Data}}
+	case "responder-error":
+		res = &errResponder{customResponder{b: b, code: o.Code, data: &payload{Token: o.Data}}}
 	case "lib-error":
 		var hs []http.Header
 		if len(o.Headers) > 0 {
@@ -567,6 +646,9 @@ func parseBasicChallenge(v string) (realm string, ok bool) {
 // ---- running one case ----
 
 func shapeOf(ct string) string {
+	if i := strings.IndexByte(ct, ';'); i > 0 && (ct[i-1] == ' ' || ct[i-1] == '\t') {
+		return "type-with-params-and-ows-before-semicolon"
+	}
 	if strings.Contains(ct, ";") {
 		return "type-with-params"
 	}
@@ -581,6 +663,8 @@ func outcomeClass(kind string) string {
 		return "library-responder"
 	case "responder":
 		return "custom-responder"
+	case "responder-error":
+		return "custom-responder-that-is-an-error"
 	}
 	return kind
 }
@@ -622,6 +706,20 @@ func runCaseOn(m *mon.M, c *Case, b *built, h http.Handler) (violated bool) {
 		path += "?need=v"
 	}
 	req := httptest.NewRequest(method, path, nil)
+	bodyRefused := 0 // the status the content-type gate owes this request (0: none)
+	if op.BodyParam && rq.Body != "" {
+		req = httptest.NewRequest(method, path, strings.NewReader(`{"a":1}`))
+		switch rq.Body {
+		case "admitted":
+			req.Header.Set("Content-Type", "application/json")
+		case "non-admitted":
+			req.Header.Set("Content-Type", "text/csv")
+			bodyRefused = http.StatusUnsupportedMediaType
+		case "malformed":
+			req.Header.Set("Content-Type", "application/json/v2;;")
+			bodyRefused = http.StatusBadRequest
+		}
+	}
 	if lines != nil {
 		req.Header["Accept"] = append([]string{}, lines...) // the library gets its own copy
 	}
@@ -640,7 +738,7 @@ func runCaseOn(m *mon.M, c *Case, b *built, h http.Handler) (violated bool) {
 	}
 	rec := httptest.NewRecorder()
 	minimal := func() *Case {
-		dd := &APIDesc{DefaultProduces: d.DefaultProduces, Global: d.Global, Ops: []OpDesc{op}, Realm: d.Realm, Authorizer: d.Authorizer}
+		dd := &APIDesc{DefaultProduces: d.DefaultProduces, Global: d.Global, Ops: []OpDesc{op}, Realm: d.Realm, Authorizer: d.Authorizer, CtxAuth: d.CtxAuth, BareOnly: d.BareOnly}
 		r2 := *rq
 		r2.Op = 0
 		cs := &Case{API: dd, Req: r2, WantOrder: b.obs.produces}
@@ -651,6 +749,9 @@ func runCaseOn(m *mon.M, c *Case, b *built, h http.Handler) (violated bool) {
 	}
 	violate := func(sig, detail string) {
 		violated = true
+		if accept.HasOWSBeforeSemicolon(declared...) && !strings.Contains(sig, "ows-before-semicolon") {
+			sig += "+declared-type-with-ows-before-semicolon"
+		}
 		cs := minimal()
 		if !inTrial && shrinks[sig] < 3 {
 			shrinks[sig]++
@@ -694,6 +795,23 @@ func runCaseOn(m *mon.M, c *Case, b *built, h http.Handler) (violated bool) {
 			violate("error-responder-got-different-error/"+rq.Route, fmt.Sprintf("%s %s: error responder got %v (code %d), expected code %d", method, path, obs.serveErr[0].err, errCode(obs.serveErr[0].err), want))
 		case obs.serveErr[0].ctEntry == "":
 			violate("error-content-type/"+rq.Route, fmt.Sprintf("%s %s: no Content-Type set when the error responder was invoked", method, path))
+		default:
+			// whatever was negotiated is a type the API produces (or JSON when nothing was)
+			known := map[string]bool{runtime.JSONMime: true, d.DefaultProduces: true}
+			for _, t := range d.Global {
+				known[t] = true
+			}
+			for _, o2 := range d.Ops {
+				for _, t := range o2.Produces {
+					known[t] = true
+				}
+			}
+			for _, t := range d.regKeys() { // (the catalogue operation lists the registered keys)
+				known[t] = true
+			}
+			if !known[obs.serveErr[0].ctEntry] {
+				violate("error-content-type/"+rq.Route+"/not-a-type-of-the-api", fmt.Sprintf("%s %s Accept=%q: Content-Type %q when the error responder was invoked: neither a produces entry of the API, nor its default, nor JSON", method, path, lines, obs.serveErr[0].ctEntry))
+			}
 		}
 		return violated
 	}
@@ -758,6 +876,8 @@ func runCaseOn(m *mon.M, c *Case, b *built, h http.Handler) (violated bool) {
 		stage = "auth"
 	case denied:
 		stage = "authorizer"
+	case bodyRefused != 0 && rq.Route == "":
+		stage = "content-type-gate"
 	case missing && (!negOK || gate.None):
 		stage = "406-or-422"
 	case missing:
@@ -835,12 +955,40 @@ func runCaseOn(m *mon.M, c *Case, b *built, h http.Handler) (violated bool) {
 			violate("handler-ran/failed-basic-auth", fmt.Sprintf("%s auth=%s: handler ran", ctx, rq.Auth))
 			return violated
 		}
-		if !checkErrorRouted("failed-basic-auth", nil, http.StatusUnauthorized) {
-			return violated
+		refusal := "" // how the credential callback refused (it runs for well-formed wrong credentials only)
+		if rq.Auth == "wrong" && rq.Refuse != "" {
+			refusal = "/refused-with-" + rq.Refuse
+		}
+		switch {
+		case refusal == "":
+			if !checkErrorRouted("failed-basic-auth", nil, http.StatusUnauthorized) {
+				return violated
+			}
+		case rq.Refuse == "403" || rq.Refuse == "429":
+			// the errors.Error of the callback is the error the stage returns: the responder must get that very error
+			if obs.refuseErr == nil {
+				violate("credential-callback-not-invoked", fmt.Sprintf("%s auth=%s: the credential callback did not run", ctx, rq.Auth))
+				return violated
+			}
+			if !checkErrorRouted("failed-basic-auth"+refusal, obs.refuseErr, 0) {
+				return violated
+			}
+		default:
+			// a plain error of the callback: an error must be served (which code is not the statement's business)
+			if !checkErrorRouted("failed-basic-auth"+refusal, nil, 0) {
+				return violated
+			}
 		}
 		wantRealm := security.DefaultRealmName
 		if d.Realm != nil && *d.Realm != "" {
 			wantRealm = *d.Realm
+		}
+		ctxFlavour := "" // registered through BasicAuthCtx / BasicAuthRealmCtx, and the callback ran
+		if d.CtxAuth && rq.Auth == "wrong" {
+			ctxFlavour = "+ctx-callback"
+			if rq.AuthCtx != "" {
+				ctxFlavour += "-returning-" + rq.AuthCtx + "-context"
+			}
 		}
 		ch := res.Header.Values("WWW-Authenticate")
 		found, anyBasic := false, false
@@ -854,11 +1002,14 @@ func runCaseOn(m *mon.M, c *Case, b *built, h http.Handler) (violated bool) {
 		}
 		switch {
 		case !anyBasic:
-			violate("basic-auth-challenge-missing/"+rq.Auth+"-credentials", fmt.Sprintf("%s auth=%s: status %d, WWW-Authenticate=%q, expected a Basic challenge for realm %q", ctx, rq.Auth, status, ch, wantRealm))
+			violate("basic-auth-challenge-missing/"+rq.Auth+"-credentials"+refusal+ctxFlavour, fmt.Sprintf("%s auth=%s: status %d, WWW-Authenticate=%q, expected a Basic challenge for realm %q", ctx, rq.Auth, status, ch, wantRealm))
 		case !found:
-			violate("basic-auth-wrong-realm", fmt.Sprintf("%s auth=%s: WWW-Authenticate=%q does not name the configured realm %q", ctx, rq.Auth, ch, wantRealm))
+			violate("basic-auth-wrong-realm"+ctxFlavour, fmt.Sprintf("%s auth=%s: WWW-Authenticate=%q does not name the configured realm %q", ctx, rq.Auth, ch, wantRealm))
 		}
-		m.Class("auth:" + rq.Auth)
+		m.Class("auth:" + rq.Auth + refusal)
+		if d.CtxAuth {
+			m.Class("auth:ctx-flavour:" + rq.Auth + "/" + rq.AuthCtx)
+		}
 		return violated
 	case "authorizer":
 		if obs.ran != 0 {
@@ -872,6 +1023,17 @@ func runCaseOn(m *mon.M, c *Case, b *built, h http.Handler) (violated bool) {
 			checkErrorRouted("authorizer-denied", nil, http.StatusForbidden)
 		}
 		m.Class("authorizer:" + rq.Deny)
+		return violated
+	case "content-type-gate":
+		kind := "unsupported-media-type"
+		if bodyRefused == http.StatusBadRequest {
+			kind = "malformed-content-type"
+		}
+		if obs.ran != 0 {
+			violate("handler-ran/"+kind, fmt.Sprintf("%s body=%s: handler ran", ctx, rq.Body))
+			return violated
+		}
+		checkErrorRouted(kind, nil, bodyRefused)
 		return violated
 	case "bind", "406-or-422":
 		want := codeValidation
@@ -914,7 +1076,7 @@ func runCaseOn(m *mon.M, c *Case, b *built, h http.Handler) (violated bool) {
 		switch rq.Outcome.Kind {
 		case "api-error", "plain-error", "composite-error":
 			// judged at the error responder's entry (it sets its own type afterwards)
-		case "responder":
+		case "responder", "responder-error":
 			if obs.respCalls == 1 && obs.respCT != w {
 				violate("wrong-content-type/"+oc, fmt.Sprintf("%s: Content-Type %q when the Responder was invoked, statement negotiates %q", ctx, obs.respCT, w))
 				return violated
@@ -928,7 +1090,7 @@ func runCaseOn(m *mon.M, c *Case, b *built, h http.Handler) (violated bool) {
 				}
 			}
 		}
-	} else if rq.Outcome.Kind == "responder" {
+	} else if rq.Outcome.Kind == "responder" || rq.Outcome.Kind == "responder-error" {
 		announced = obs.respCT
 	}
 	wantTag := strings.ToLower(accept.NormOffer(announced))
@@ -973,8 +1135,10 @@ func runCaseOn(m *mon.M, c *Case, b *built, h http.Handler) (violated bool) {
 		case body != "["+wantTag+"]"+wantRendered(&rq.Outcome):
 			violate("body-mismatch/value", fmt.Sprintf("%s: body %q, the producer wrote %q", ctx, clip(body), "["+wantTag+"]"+wantRendered(&rq.Outcome)))
 		}
-	case "responder":
+	case "responder", "responder-error":
 		switch {
+		case obs.respCalls != 1 && rq.Outcome.Kind == "responder-error":
+			violate("responder-invoked-not-once/result-that-is-also-an-error", fmt.Sprintf("%s: the result (a Responder that also implements error, returned in the result slot) was asked to write itself %d times; error responder invoked %d times, status %d", ctx, obs.respCalls, len(obs.serveErr), status))
 		case obs.respCalls != 1:
 			violate("responder-invoked-not-once", fmt.Sprintf("%s: Responder invoked %d times", ctx, obs.respCalls))
 		default:
@@ -1157,6 +1321,16 @@ func shrinkCase(c *Case, sig, detail string) (*Case, string) {
 			n.API.Ops[0].ReqParam = false
 			cands = append(cands, n)
 		}
+		if op.BodyParam && c.Req.Body == "" {
+			n := cloneCase(c)
+			n.API.Ops[0].BodyParam = false
+			cands = append(cands, n)
+		}
+		if op.BodyParam && c.Req.Body == "admitted" {
+			n := cloneCase(c)
+			n.Req.Body = ""
+			cands = append(cands, n)
+		}
 		if c.API.Authorizer && c.Req.Deny == "" {
 			n := cloneCase(c)
 			n.API.Authorizer = false
@@ -1256,6 +1430,8 @@ func genAPI(r *rand.Rand) *APIDesc {
 			t := accept.Types[perm[i]]
 			if r.Intn(4) == 0 {
 				t += paramSuffix[r.Intn(len(paramSuffix))]
+			} else if accept.JudgeOWSBeforeSemicolon && r.Intn(12) == 0 {
+				t += accept.OWSOfferParams[r.Intn(len(accept.OWSOfferParams))]
 			}
 			out = append(out, t)
 		}
@@ -1306,9 +1482,14 @@ func genAPI(r *rand.Rand) *APIDesc {
 		op.Secured = r.Intn(4) == 0
 		op.Alt = op.Secured && r.Intn(2) == 0
 		op.ReqParam = r.Intn(5) == 0
+		if (op.Method == "POST" || op.Method == "PUT" || op.Method == "PATCH") && r.Intn(2) == 0 {
+			op.BodyParam = true
+		}
 		d.Ops = append(d.Ops, op)
 	}
 	d.NoOpIDs = r.Intn(4) == 0
+	d.CtxAuth = d.anySecured() && r.Intn(2) == 0
+	d.BareOnly = r.Intn(6) == 0
 	d.Authorizer = d.anySecured() && r.Intn(2) == 0
 	if d.anySecured() && r.Intn(3) > 0 {
 		s := realms[r.Intn(len(realms))]
@@ -1317,13 +1498,15 @@ func genAPI(r *rand.Rand) *APIDesc {
 	return d
 }
 
-var outcomeKinds = []string{"value", "value", "value", "value", "value-producer-fails", "nil", "responder", "responder", "lib-error", "lib-error", "not-implemented", "api-error", "plain-error", "composite-error"}
+var outcomeKinds = []string{"value", "value", "value", "value", "value-producer-fails", "nil", "responder", "responder", "responder-error", "lib-error", "lib-error", "not-implemented", "api-error", "plain-error", "composite-error"}
 
 func genOutcome(r *rand.Rand, i int) Outcome {
 	o := Outcome{Kind: outcomeKinds[r.Intn(len(outcomeKinds))], Data: fmt.Sprintf("tok%d", i)}
 	switch o.Kind {
 	case "responder":
 		o.Code = []int{200, 207, 299, 418}[r.Intn(4)]
+	case "responder-error":
+		o.Code = []int{200, 409, 422, 503}[r.Intn(4)]
 	case "lib-error":
 		o.Code = []int{0, -1, 400, 404, 409, 422, 500, 503, 200}[r.Intn(9)]
 		if r.Intn(2) == 0 {
@@ -1375,11 +1558,17 @@ func genReq(r *rand.Rand, d *APIDesc, i int) ReqDesc {
 		if r.Intn(2) == 0 {
 			fl = accept.Plain // keep most requests on headers whose negotiation is judged even while C07's parser defects exist
 		}
-		rq.Accept = mon.QS(accept.GenHeader(r, fl, types).Render(accept.OWS(r)))
+		rq.Accept = mon.QS(accept.WithEmptyElements(r, accept.GenHeader(r, fl, types).Render(accept.OWS(r))))
 		rq.Flavour = accept.FlavourNames[fl]
 	}
 	if op.Secured {
 		rq.Auth = []string{"none", "wrong", "malformed", "right", "right", "right"}[r.Intn(6)]
+		if rq.Auth == "wrong" && r.Intn(2) == 0 {
+			rq.Refuse = []string{"plain", "wrapped-401", "403", "429"}[r.Intn(4)]
+		}
+		if d.CtxAuth && rq.Auth == "wrong" && r.Intn(3) == 0 {
+			rq.AuthCtx = "background"
+		}
 	}
 	rq.Outcome = genOutcome(r, i)
 	if r.Intn(3) == 0 {
@@ -1387,6 +1576,9 @@ func genReq(r *rand.Rand, d *APIDesc, i int) ReqDesc {
 	}
 	if op.ReqParam && r.Intn(4) == 0 {
 		rq.OmitParam = true
+	}
+	if op.BodyParam {
+		rq.Body = []string{"", "admitted", "admitted", "admitted", "non-admitted", "malformed"}[r.Intn(6)]
 	}
 	if d.Authorizer && op.Secured && r.Intn(4) == 0 {
 		rq.Deny = []string{"api-error", "plain-error"}[r.Intn(2)]
